@@ -365,6 +365,8 @@ def run(tier, seed):
                           'max_paths': 1200 if q else 100000, 'budget_s': 14 if q else 400})
         items.append({'script': script, 'api': 'stop_job', 'next': False, 'later': True, 'preempt': 1 if q else 2,
                       'max_paths': 1500 if q else 150000, 'budget_s': 15 if q else 600})
+    if tier == 'thorough':
+        common.fit_item_budgets(items, common.tier_budget(tier, 80, 1000))          # every scenario gets its turn
     results, skipped = report.run_pool(worker, items, budget_s=common.tier_budget(tier, 80, 1000))
     return report.finish(
         PROP, tier, seed, 'exploration', results, skipped,
